@@ -16,11 +16,10 @@ PROPS = {
         'crate': 'biscuit-auth',
         # quick: for every binary operator the rows of its "home" left-hand types + one foreign type
         'quick': [
-            r'c06_bin_(lt|gt|le|ge)_(int|date)', r'c06_bin_(eq|ne|heq|hne)_(int|set1|null)',
-            r'c06_bin_contains_(set1|arr1|map1)', r'c06_bin_(prefix|suffix)_arr1', r'c06_bin_regex_str',
-            r'c06_bin_(add|sub|mul|div)_int', r'c06_bin_(and|or)_bool', r'c06_bin_(intersection|union)_set0',
-            r'c06_bin_bit(and|or|xor)_int', r'c06_bin_(lazyand|lazyor|all|any)_bool', r'c06_bin_get_(arr1|map1)',
-            r'c06_bin_ffi_int',
+            r'c06_bin_(lt|ge)_(int|date)', r'c06_bin_(eq|hne)_(int|set1|null)', r'c06_bin_heq_int', r'c06_bin_ne_int',
+            r'c06_bin_contains_(set1|arr1)', r'c06_bin_prefix_arr1',
+            r'c06_bin_(add|sub|mul|div)_int', r'c06_bin_(and|or)_bool', r'c06_bin_union_set0',
+            r'c06_bin_bit(and|xor)_int', r'c06_bin_lazyor_bool', r'c06_bin_get_(arr1|map1)',
         ],
         'thorough': [r'c06_bin_\w+'],
         'cap': {'quick': 300, 'thorough': 900},
@@ -91,6 +90,53 @@ PROPS = {
         'stubs': ['crypto::PublicKey::verify_signature -> oracle (Ok/Err nondeterministically, query recorded)', 'ed25519 PrivateKey::public -> uninterpreted function', 'p256 PublicKey::to_bytes -> deterministic stand-in', 'alloc::fmt::format'],
         'out': 'unforgeability of the primitives (EUF-CMA, assumed); protobuf decoding of the envelope (SerializedBiscuit::deserialize), byte-level corruption, re-encodings; collisions between v0 payloads of different shapes',
         'level_text': 'Verification obligations: bounded symbolic execution of the whole verification walk with the signature primitive replaced by a recording oracle; acceptance implies exactly the triples (key, specified payload, signature) of the specification were accepted by the primitive.',
+    },
+    'C02': {
+        'crate': 'biscuit-auth',
+        'quick': [r'c02_append_(after_block_v0_v0|after_block_v0_v1|third_party_after_block|after_two_blocks_v1)', r'c02_seal_after_block'],
+        'thorough': [r'c02_\w+'],
+        'cap': {'quick': 600, 'thorough': 1800},
+        'per_harness': {r'c0[278]x?_\w+': {'unwindset': 'memcmp.0:200'}},
+        'jobs': 4, 'mem_gb': 24,
+        'functions': ['format::SerializedBiscuit::{append_serialized,seal,last_block}', 'format::block_signature_version', 'crypto::{sign_block,generate_block_signature_payload_v0,generate_block_signature_payload_v1,generate_seal_signature_payload_v0}', 'crypto::TokenNext::keypair'],
+        'bounds': 'containers of 1..2 blocks (signature versions 0/1), one appended block (first- or third-party, ed25519 or secp256r1 next key, ed25519 or secp256r1 proof secret) or one seal; payloads 2 bytes, signatures 3 bytes, all bytes / key objects / signatures returned by the primitive symbolic',
+        'stubs': ['crypto::KeyPair::sign -> oracle (symbolic signature, query recorded)', 'ed25519 public-key derivation -> uninterpreted function', 'p256 PublicKey::to_bytes -> stand-in', 'alloc::fmt::format'],
+        'out': 'the real signatures; building blocks from Datalog (token::Block -> protobuf) and SerializedBiscuit::{new,append}; byte-exact protobuf round trips, base64, UnverifiedBiscuit; together with C01 (verification demands the same specified payloads) this gives "what the API signs is what verification accepts" for these operations only',
+        'level_text': 'Sign/verify symmetry for the container operations: bounded symbolic execution with the signing primitive replaced by a recording oracle; the signed message equals an independent re-implementation of the specified layout.',
+    },
+    'C08': {
+        'crate': 'biscuit-auth',
+        'quick': [r'c08_\w+', r'c02_seal_\w+', r'c01_walk_(auth_v1_sealed|v1_v1_sealed)'],
+        'thorough': [r'c01_walk_v1_v1_v1_sealed_p256'],
+        'cap': {'quick': 600, 'thorough': 1800},
+        'per_harness': {r'c0[1278]_\w+': {'unwindset': 'memcmp.0:200'}},
+        'functions': ['format::SerializedBiscuit::{seal,append_serialized,verify_inner}', 'token::third_party::ThirdPartyRequest::from_container', 'crypto::TokenNext::{keypair,is_sealed}'],
+        'bounds': 'sealed containers of 1..2 blocks: every extension (append, re-seal, third-party request, key pair extraction) is refused before anything is signed; seal keeps blocks, signatures and root key id; a sealed token verifies only if the final signature was accepted under the last next key over (payload, algorithm, next key, signature) of the last block',
+        'stubs': ['signature oracle', 'alloc::fmt::format'],
+        'out': '"authorizes exactly like the unsealed one" end to end; serialization round trips; Biscuit/UnverifiedBiscuit wrappers around the container (token/mod.rs, token/unverified.rs)',
+    },
+    'C15': {
+        'crate': 'biscuit-auth',
+        'quick': [r'c02_append_(after_block_v0_v1|third_party_after_block)', r'c02_seal_after_block', r'c01_walk_(v1_v1|v0_v1ext)'],
+        'thorough': [r'c02_\w+', r'c01_walk_\w+'],
+        'cap': {'quick': 600, 'thorough': 1800},
+        'per_harness': {r'c0[1278]_\w+': {'unwindset': 'memcmp.0:200'}},
+        'functions': ['format::SerializedBiscuit::{append_serialized,seal,verify_inner}', 'crypto::generate_block_signature_payload_v1'],
+        'bounds': 'as C01 / C02: append and seal keep every earlier signature bit-identical; every signature but the last is bound into its successor\'s version-1 payload or into the seal',
+        'stubs': ['signature oracle', 'alloc::fmt::format'],
+        'out': 'uniqueness of identifiers (randomness of next keys), strictness of ed25519 verification, malleability of ECDSA signatures (F12 in DESIGN.md: a high-s re-encoding of the last signature of a secp256r1-signed token changes its identifier - needs the curve order, outside the solver\'s reach); revocation_identifiers() accessors',
+        'level_text': 'Glue only: stability of stored signatures under append/seal and their binding into the successor payload, by bounded symbolic execution with the signature oracle.',
+    },
+    'C07': {
+        'crate': 'biscuit-auth',
+        'quick': [r'c07_\w+', r'c01_walk_(v0_v1ext|v0_v0ext_legacy)', r'c02_append_third_party_\w+'],
+        'thorough': [r'c01_walk_v0_v1ext_v1'],
+        'cap': {'quick': 600, 'thorough': 1800},
+        'per_harness': {r'c0[1278]_\w+': {'unwindset': 'memcmp.0:200'}},
+        'functions': ['crypto::{verify_block_signature,verify_external_signature,generate_external_signature_payload_v1}', 'token::third_party::ThirdPartyRequest::from_container', 'format::SerializedBiscuit::append_serialized'],
+        'bounds': 'as C01 / C02 for blocks carrying an external signature: acceptance requires the stated external key to accept (payload + signature of the actual previous block, version 1); the request carries exactly the last signature; the token-level signature of a third-party block covers the external signature bytes',
+        'stubs': ['signature oracle', 'alloc::fmt::format'],
+        'out': 'symbol / public-key table isolation of third-party blocks, create_block and append_third_party (protobuf payloads), trust through key scopes (C03 kernel), request/response byte manipulation',
     },
 }
 
